@@ -29,13 +29,13 @@ Qed.
 
 Lemma drop_suffix_app a b : drop_suffix b (a ++ b) = Some a.
 Proof.
-  unfold drop_suffix. rewrite rev_app_distr, drop_prefix_app. now rewrite rev_involutive.
+  unfold drop_suffix. rewrite ?frev_eq. rewrite rev_app_distr, drop_prefix_app. now rewrite frev_eq, rev_involutive.
 Qed.
 
 Lemma drop_suffix_spec suf s r : drop_suffix suf s = Some r -> s = r ++ suf.
 Proof.
-  unfold drop_suffix. destruct (drop_prefix (rev suf) (rev s)) as [x|] eqn:E; [|discriminate].
-  intro H. injection H as <-. apply drop_prefix_spec in E.
+  unfold drop_suffix. rewrite ?frev_eq. destruct (drop_prefix (rev suf) (rev s)) as [x|] eqn:E; [|discriminate].
+  intro H. injection H as <-. rewrite frev_eq. apply drop_prefix_spec in E.
   apply (f_equal (@rev N)) in E. rewrite rev_involutive, rev_app_distr, rev_involutive in E. exact E.
 Qed.
 
@@ -150,7 +150,7 @@ Proof.
   change (set_mode (mkbuf [] [] SafeEscaped false) SafeRaw) with (mkbuf [] [] SafeRaw false).
   change (buf_write (mkbuf [] [] SafeRaw false) s) with (mkbuf [] s SafeRaw false).
   change (set_mode (mkbuf [] s SafeRaw false) SafeEscaped) with (mkbuf s [] SafeEscaped false).
-  unfold buf_take, buf_finalize. cbn [bmode bopen]. unfold escape_to_end, escape_from.
+  unfold buf_take, buf_finalize. cbn [bmode bopen]. unfold escape_to_end, escape_from. rewrite ?frev_eq.
   cbn [bvalid bpend bmode bopen List.length escape_loop rev app].
   unfold last_rune_invalid in H. rewrite H. rewrite rev_involutive.
   unfold whole. cbn [bvalid bpend]. now rewrite app_nil_r.
@@ -692,7 +692,7 @@ Qed.
 
 Lemma drop_suffix_last_ne suf x w y : x <> y -> drop_suffix (suf ++ [x]) (w ++ [y]) = None.
 Proof.
-  intro H. unfold drop_suffix. rewrite !rev_app_distr. cbn [rev app drop_prefix].
+  intro H. unfold drop_suffix. rewrite ?frev_eq. rewrite !rev_app_distr. cbn [rev app drop_prefix].
   destruct (x =? y) eqn:E; [apply N.eqb_eq in E; contradiction|reflexivity].
 Qed.
 
@@ -711,7 +711,7 @@ Lemma escape_from_ascii v p brk :
   p <> [] -> ascii p = true -> (brk = true -> no_nl p = true) -> escape_from v p brk = v ++ p.
 Proof.
   intros Hne Ha Hn. destruct (rev_nonempty_ascii p Hne Ha) as (b & r & E & Hb).
-  unfold escape_from.
+  unfold escape_from. rewrite ?frev_eq.
   assert (Hc : escape_loop (List.length p) p (rev v) brk = rev p ++ rev v).
   { destruct brk.
     - apply escape_loop_copy; [now apply ascii_no_e2|now apply Hn|lia].
@@ -778,7 +778,7 @@ Qed.
 
 Lemma take_end v : buf_take (mkbuf (v ++ m_end) [] SafeEscaped false) = v ++ m_end.
 Proof.
-  unfold buf_take, buf_finalize. cbn [bmode bopen]. unfold escape_to_end, escape_from.
+  unfold buf_take, buf_finalize. cbn [bmode bopen]. unfold escape_to_end, escape_from. rewrite ?frev_eq.
   cbn [bvalid bpend bmode bopen List.length escape_loop rev app].
   replace (last_rune_invalid_rev (rev (v ++ m_end))) with false by (rewrite rev_app_distr; reflexivity).
   rewrite rev_involutive. unfold whole. cbn [bvalid bpend]. now rewrite app_nil_r.
